@@ -498,7 +498,43 @@ def r7_guard_writers(ctx, fam):
                             'hand)' % (C, n))
 
 
+def r9_abort_not_self_inflicted(ctx, fam):
+    """the abort event ends a reconnection effort: it is raised by the
+    application (shutdown) only.  A function that sets it must not be
+    reachable from _handle_reconnect itself - each attempt goes through
+    connect(), which tears a half-open attempt down with disconnect() - or
+    the effort aborts itself after a namespace-level failure although
+    attempts remain."""
+    m = ctx.model
+    C = CLIENT[fam]
+    top = m.method(C, '_handle_reconnect')
+    reach = set(id(g) for g in m.reachable(top))
+    n = 0
+    for g in m.cls(C).methods.values():
+        for y in walk_own(g.node):
+            if isinstance(y, ast.Call) and \
+                    isinstance(y.func, ast.Attribute) and \
+                    y.func.attr == 'set' and \
+                    U(y.func.value) == 'self._reconnect_abort':
+                n += 1
+                ctx.check(id(g) not in reach and g is not top,
+                          '%s.%s' % (C, g.name), 'the abort event is raised '
+                          'outside the reconnection effort only',
+                          key='abort-from-effort', reason='%s sets '
+                          '_reconnect_abort and is reachable from '
+                          '_handle_reconnect (through connect()): an attempt '
+                          'that fails at the namespace level aborts the '
+                          'whole effort although attempts remain' % g.name,
+                          where=where(g, y))
+    if not n:
+        raise AnalysisError(C + ': nobody sets _reconnect_abort')
+
+
 def run(ctx):
+    ctx.rule('C10.R9', 'the abort event is not raised from inside the '
+             'reconnection effort', floor=2)
+    for fam in SA:
+        r9_abort_not_self_inflicted(ctx, fam)
     ctx.rule('C10.R7', 'writers of the single-effort guard _reconnect_task',
              floor=4)
     for fam in SA:
